@@ -60,7 +60,7 @@ def _binds(fnode: ast.FunctionDef, n_pos: int, kw: List[str], bound_self: bool) 
 def rule_dispatch_arity(run, prog, rid="R-5.14"):
     run.rule(rid, "reflective dispatch is closed under its call: for every `getattr(self, <template over input text>)` whose result "
              "is called, each method of the class (bases included) whose name fits the template binds the arguments of that "
-             "call; otherwise an input that spells the method's suffix ends in a TypeError traceback", floor=1)
+             "call; otherwise an input that spells the method's suffix ends in a TypeError traceback", floor=0)
     n = 0
     for fn in prog.fns:
         if fn.cls is None:
